@@ -187,7 +187,7 @@ def _resolve_target_set(source: NixSourceCode) -> AttributeSet:
         raise ValueError("Source must contain exactly one top-level expression")
     try:
         return _resolve_target_set_from_expr(source.expressions[0])
-    except ValueError as exc:
+    except (ValueError, ResolutionError) as exc:
         raise ValueError(
             "Top-level expression must be an attribute set or function definition"
         ) from exc
